@@ -135,7 +135,7 @@ theorem response_faithful (method tver : Str) (a : AppOut) (r : Resp) (h : respo
     (∃ cs, splitSpace a.status = some (cs, r.reason) ∧ parseCode cs = some r.code) ∧
     (∃ extra, r.headers = a.headers ++ extra ∧
       ∀ p ∈ extra, isDefaultName (lowerName p.1) = true ∧ hasLower (lowerName p.1) a.headers = false) ∧
-    r.body = (if isHead method || r.code = 304 then [] else a.body) := by
+    r.body = (if isHead method || noBodyStatus r.code then [] else a.body) := by
   unfold respond at h
   split at h
   · simp at h
